@@ -125,7 +125,10 @@ fn helper_cases(ctx: &mut Ctx, rng: &mut Rng) {
         let erow = if rng.chance(1, 8) { rng.below(12) } else { wsr + rng.below(nlines) };
         let ecol = rng.below(20);
         let radius = *rng.pick(RADII);
-        let consistent = rng.chance(3, 4);
+        // (the stored window never holds a lone CR: crop_source_window turns them into LF, and crop_window_text counts
+        // rows by LF only -- with one the (row, column) given by line_starts would name another line)
+        let lone_cr = w.as_bytes().iter().enumerate().any(|(i, b)| *b == b'\r' && w.as_bytes().get(i + 1) != Some(&b'\n'));
+        let consistent = rng.chance(3, 4) && !lone_cr;
         let (ls, le) = if consistent {
             match hooks::snippet_line_col_to_byte(&w, (erow + 1).saturating_sub(wsr), ecol) {
                 Some(s) => {
@@ -279,6 +282,12 @@ fn parse_rows(rendered: &str) -> Vec<Vec<Row>> {
         if !digits.is_empty() && (rest.starts_with(" | ") || rest == " |") && in_window {
             cur.push(Row { num: digits.parse().unwrap_or(0), text: rest.get(3..).unwrap_or("").to_string(), caret: None });
         } else if t.starts_with("| ") || t == "|" {
+            // a line of text inside the frame ("| This value comes indirectly from the anchor at ...") starts the
+            // next window
+            let after = t[1..].trim_start();
+            if !after.is_empty() && !after.starts_with('^') && !after.starts_with('-') && in_window && !cur.is_empty() {
+                windows.push(std::mem::take(&mut cur));
+            }
             if !in_window {
                 in_window = true;
             }
@@ -497,7 +506,11 @@ fn check_rendered(ctx: &mut Ctx, sc: &Scenario, e: &serde_saphyr::Error, radius:
                 let src = &lines[l - 1];
                 let (want, want_caret) = expected_error_line(src, col, radius);
                 let fits = width(&want) + 8 < 140;
-                if fits && wi == 0 {
+                // (the renderer itself shifts a row whose caret label would not fit its 140 columns and marks the cut with
+                // three ASCII dots; what remains must still be the tail / a part of the documented crop)
+                let renderer_cut = er.text.contains("...") && !want.contains("...");
+                let renderer_cut_ok = renderer_cut && er.text.split("...").all(|piece| want.contains(piece.trim_end()));
+                if fits && wi == 0 && !renderer_cut_ok {
                     if er.text.trim_end() != want.trim_end() {
                         ctx.fail(&cls("error-row-text"), format!("[{}] line {l} column {col} radius {radius} ({fname}, {entry}): row shows {:?}, expected {:?}", sc.family, er.text, want), replay.clone());
                     } else if let (Some(wc), Some(gc)) = (want_caret, er.caret) {
